@@ -6,9 +6,11 @@ package main
 // and titles and checks refusals, no side effects of refusals, and the round trips.
 
 import (
+	"context"
 	"fmt"
 	"strings"
 
+	"github.com/hedzr/is"
 	"github.com/hedzr/is/term/color"
 	"github.com/hedzr/logg/slog"
 )
@@ -252,6 +254,17 @@ func runC17(r *run) {
 				}
 				if t, ok := slog.VerifTreatedAs(L); treat < 12 && (!ok || int(t) != treat) {
 					r.violate(violation{What: "registered level is not gated as the level it is treated as", Input: input, Actual: fmt.Sprint(int(t), ok)})
+				}
+				// the gate itself, not only the table: the level is admitted exactly like the level it is treated as
+				if !is.DebugMode() {
+					for _, lg := range []int{0, 1, 2, 3, 4, 6, 7, 8} {
+						got := slog.Level(lg).Enabled(context.Background(), L)
+						r.emit(fmt.Sprintf("C17 gate %d %d", lg, v), b01(got))
+						if treat >= 0 && treat <= 6 && lg <= 6 && got != (treat <= lg) {
+							r.violate(violation{What: "a registered level is not admitted exactly like the built-in level it is treated as",
+								Input: map[string]any{"registration": input, "logger_level": lg}, Expected: fmt.Sprint(treat <= lg), Actual: fmt.Sprint(got)})
+						}
+					}
 				}
 				if toErr != slog.VerifUsesErrorDevice(L) {
 					r.violate(violation{What: "error-device request not honoured", Input: input, Actual: slog.VerifUsesErrorDevice(L)})
